@@ -37,6 +37,7 @@ StepOK(a, b, fresh, cmp, boff) ==
     [] rel = "EqualWhileAgree" -> (agree /\ cmp) => NumsEq(a.nums, b.nums)
 Advance(a, b, fresh, boff) ==
   /\ off' = (IF fresh THEN boff ELSE off) /\ prevA' = a.state /\ prevTotal' = a.total
-  /\ bDrifted' = (bDrifted \/ b.state = "drift") /\ agree' = (agree /\ a.state = b.state)
+  /\ bDrifted' = (bDrifted \/ b.state = "drift" \/ a.state = "drift")     \* the relation speaks about the FIRST drift only
+  /\ agree' = (agree /\ a.state = b.state)
   /\ steps' = steps + 1 /\ rel' = rel
 =============================================================================
